@@ -1,14 +1,25 @@
 //! C14: serialise grammar + state table the way lrpar's ctbuilder does, reconstitute them
 //! the way every generated parser does at start-up, and ask every public query of both.
 //!
-//! case:   `<kind> <hexsrc> <width: 8|16|32> <enc: fix|var> [o|r] [; <hex token name>* ]*`
+//! The two wincode configurations (build-time `serialize`, start-up `_reconstitute`) are the expressions
+//! of /repo's lrpar/src/lib/ctbuilder.rs, copied verbatim into `../c14_config.rs` by vlib/ctconfig.py
+//! before every build of this binary (macros `ct_write_config_{fix,var}!`, `ct_read_config_{fix,var}!`).
+//!
+//! case:   `<kind> <hexsrc> <width: 8|16|32> <enc: fix|var> [o|r|d] [; <hex token name>* ]*`
 //!         (`o` / `r`: run the parses on the originals / the reconstituted objects only — used by the
-//!          check to find out which side does not return when a case hangs)
+//!          check to find out which side does not return when a case hangs;
+//!          `d`: digest mode for big cases — answers longer than 96 bytes are printed as
+//!          `~<crc32 hex>:<length>`; the DIFF sections are still computed on the full answers)
+//!         `SIZES <width>`: `SIZES G <label>=<size_of> ... # S <label>=<size_of> ...` — the in-memory size of
+//!          the element type of every sequence field of YaccGrammar / StateTable, in encoding order
 //! result: ` # `-separated sections
 //!   `C <width> <enc>` · `BG <hex>` (grammar bytes) · `BS <hex>` (state table bytes) · `NST <n>`
 //!   `O <key> <answer>` … (originals) · `R <key> <answer>` … (reconstituted)
 //!   `DIFF <key> …` for every query whose answers differ · `RECONPANIC <msg>`
-//! or one of `GRMERR …` / `TBLERR …` / `BUILDPANIC …` / `SERERR …`.
+//! or one of `GRMERR …` / `TBLERR …` / `BUILDPANIC …` /
+//!   `SERERR <msg> # UG <hex> # US <hex> # NST <n>` (the build-time `serialize` returned Err — ctbuilder's
+//!   `?` makes `build()` fail; UG/US: what the same configuration writes with its preallocation size limit
+//!   disabled, for the model to say whether that limit explains the error).
 //! Text answers are hex; `-` is None.
 use cfgrammar::yacc::{YaccGrammar, YaccKind, YaccOriginalActionKind};
 use cfgrammar::{PIdx, RIdx, Span, Symbol, TIdx};
@@ -21,6 +32,77 @@ use lrtable::{from_yacc, Action, Minimiser, StIdx, StateTable};
 use num_traits::{AsPrimitive, PrimInt, Unsigned};
 use std::fmt::{Debug, Write};
 use std::hash::Hash;
+
+include!("../c14_config.rs");
+
+fn crc32(b: &[u8]) -> u32 {
+    let mut c: u32 = !0;
+    for x in b {
+        c ^= *x as u32;
+        for _ in 0..8 {
+            c = if c & 1 != 0 { (c >> 1) ^ 0xEDB8_8320 } else { c >> 1 };
+        }
+    }
+    !c
+}
+
+/// digest mode: a long answer as `~crc32:len`
+fn dg(v: &str, digest: bool) -> String {
+    if digest && v.len() > 96 {
+        format!("~{:08x}:{}", crc32(v.as_bytes()), v.len())
+    } else {
+        v.to_string()
+    }
+}
+
+/// size_of the element type of every sequence field, in the order of the encoding (a sequence of
+/// sequences / strings: the outer element first, then the inner one; strings are sequences of u8)
+fn sizes<T>() -> String {
+    use cfgrammar::yacc::Precedence;
+    use std::mem::size_of as sz;
+    let g: Vec<(&str, usize)> = vec![
+        ("rule_names:(String,Span)", sz::<(String, Span)>()),
+        ("rule_names.0:u8", sz::<u8>()),
+        ("token_names:Option<(Span,String)>", sz::<Option<(Span, String)>>()),
+        ("token_names.1:u8", sz::<u8>()),
+        ("token_precs:Option<Precedence>", sz::<Option<Precedence>>()),
+        ("token_epp:Option<String>", sz::<Option<String>>()),
+        ("token_epp.0:u8", sz::<u8>()),
+        ("prods:Box<[Symbol]>", sz::<Box<[Symbol<T>]>>()),
+        ("prods.0:Symbol", sz::<Symbol<T>>()),
+        ("rules_prods:Box<[PIdx]>", sz::<Box<[PIdx<T>]>>()),
+        ("rules_prods.0:PIdx", sz::<PIdx<T>>()),
+        ("prods_rules:RIdx", sz::<RIdx<T>>()),
+        ("prod_precs:Option<Precedence>", sz::<Option<Precedence>>()),
+        ("prod_spans:Span", sz::<Span>()),
+        ("actions:Option<String>", sz::<Option<String>>()),
+        ("actions.0:u8", sz::<u8>()),
+        ("action_spans:Option<Span>", sz::<Option<Span>>()),
+        ("parse_param.0:u8", sz::<u8>()),
+        ("parse_param.1:u8", sz::<u8>()),
+        ("parse_generics:u8", sz::<u8>()),
+        ("programs:u8", sz::<u8>()),
+        ("actiontypes:Option<String>", sz::<Option<String>>()),
+        ("actiontypes.0:u8", sz::<u8>()),
+        ("avoid_insert.vec:usize", sz::<usize>()),
+    ];
+    let s: Vec<(&str, usize)> = vec![
+        ("actions.displacement:usize", sz::<usize>()),
+        ("actions.empties.vec:u64", sz::<u64>()),
+        ("actions.data.data:u64", sz::<u64>()),
+        ("state_actions.vec:u64", sz::<u64>()),
+        ("gotos.displacement:usize", sz::<usize>()),
+        ("gotos.empties.vec:u64", sz::<u64>()),
+        ("gotos.data.data:u64", sz::<u64>()),
+        ("core_reduces.vec:u64", sz::<u64>()),
+        ("state_shifts.vec:u64", sz::<u64>()),
+        ("reduce_states.vec:u64", sz::<u64>()),
+        ("conflicts.reduce_reduce:(TIdx,PIdx,PIdx,StIdx)", sz::<(TIdx<T>, PIdx<T>, PIdx<T>, StIdx<T>)>()),
+        ("conflicts.shift_reduce:(TIdx,PIdx,StIdx)", sz::<(TIdx<T>, PIdx<T>, StIdx<T>)>()),
+    ];
+    let f = |v: &Vec<(&str, usize)>| v.iter().map(|(l, n)| format!("{}={}", l, n)).collect::<Vec<_>>().join(" ");
+    format!("SIZES G {} # S {}", f(&g), f(&s))
+}
 
 fn yacckind(code: &str) -> YaccKind {
     match code {
@@ -300,26 +382,46 @@ macro_rules! run_case {
                     })
                     .collect();
                 // exactly what CTParserBuilder does at build time (ctbuilder.rs, "serialisation_format")
+                // (the configuration expressions are ctbuilder.rs's own: ../c14_config.rs)
+                let digest = $mode == "d";
                 let ser: Result<(Vec<u8>, Vec<u8>), String> = if $enc == "fix" {
-                    let config = wincode::config::Configuration::default().with_fixint_encoding();
+                    let config = ct_write_config_fix!();
                     wincode::config::serialize(&grm, config)
                         .and_then(|g| wincode::config::serialize(&st, config).map(|s| (g, s)))
                         .map_err(|e| format!("{}", e))
                 } else {
-                    let config = wincode::config::Configuration::default().with_varint_encoding();
+                    let config = ct_write_config_var!();
                     wincode::config::serialize(&grm, config)
                         .and_then(|g| wincode::config::serialize(&st, config).map(|s| (g, s)))
                         .map_err(|e| format!("{}", e))
                 };
                 match ser {
-                    Err(e) => format!("SERERR {}", e.replace('\n', " ").replace('#', "")),
+                    Err(e) => {
+                        // the same configuration without its preallocation size limit
+                        let un: Result<(Vec<u8>, Vec<u8>), String> = if $enc == "fix" {
+                            let config = ct_write_config_fix!().disable_preallocation_size_limit();
+                            wincode::config::serialize(&grm, config)
+                                .and_then(|g| wincode::config::serialize(&st, config).map(|s| (g, s)))
+                                .map_err(|e| format!("{}", e))
+                        } else {
+                            let config = ct_write_config_var!().disable_preallocation_size_limit();
+                            wincode::config::serialize(&grm, config)
+                                .and_then(|g| wincode::config::serialize(&st, config).map(|s| (g, s)))
+                                .map_err(|e| format!("{}", e))
+                        };
+                        let mut o = format!("SERERR {}", e.replace('\n', " ").replace('#', ""));
+                        if let Ok((gb, sb)) = un {
+                            write!(o, " # UG {} # US {} # NST {}", hexb(&gb), hexb(&sb), nstates).unwrap();
+                        }
+                        o
+                    }
                     Ok((gb, sb)) => {
                         let mut o = String::new();
                         write!(o, "C {} {} # BG {} # BS {} # NST {}", $w, $enc, hexb(&gb), hexb(&sb), nstates).unwrap();
                         let none: Vec<Vec<usize>> = Vec::new();
                         let orig = transcript::<$T>(&grm, &st, nstates, if $mode == "r" { &none } else { &inputs });
                         for (k, v) in orig.iter() {
-                            write!(o, " # O {} {}", k, v).unwrap();
+                            write!(o, " # O {} {}", k, dg(v, digest)).unwrap();
                         }
                         // exactly what generated code does at start-up (`__lrpar_parser_data`)
                         let recon = catch(std::panic::AssertUnwindSafe(|| {
@@ -327,13 +429,13 @@ macro_rules! run_case {
                                 lrpar::ctbuilder::_reconstitute::<_, $T>(
                                     &gb,
                                     &sb,
-                                    wincode::config::Configuration::default().with_fixint_encoding(),
+                                    ct_read_config_fix!(),
                                 )
                             } else {
                                 lrpar::ctbuilder::_reconstitute::<_, $T>(
                                     &gb,
                                     &sb,
-                                    wincode::config::Configuration::default().with_varint_encoding(),
+                                    ct_read_config_var!(),
                                 )
                             }
                         }));
@@ -344,7 +446,7 @@ macro_rules! run_case {
                             Ok(pd) => {
                                 let rec = transcript::<$T>(pd.grm(), pd.stable(), nstates, if $mode == "o" { &none } else { &inputs });
                                 for (k, v) in rec.iter() {
-                                    write!(o, " # R {} {}", k, v).unwrap();
+                                    write!(o, " # R {} {}", k, dg(v, digest)).unwrap();
                                 }
                                 let one_sided = $mode == "o" || $mode == "r";
                                 let keep = |t: &Tr| -> Tr {
@@ -356,7 +458,7 @@ macro_rules! run_case {
                                 }
                                 for ((k1, v1), (k2, v2)) in oc.iter().zip(rc.iter()) {
                                     if k1 != k2 || v1 != v2 {
-                                        write!(o, " # DIFF {} orig={} recon={}:{}", k1, v1, k2, v2).unwrap();
+                                        write!(o, " # DIFF {} orig={} recon={}:{}", k1, dg(v1, digest), k2, dg(v2, digest)).unwrap();
                                     }
                                 }
                             }
@@ -374,6 +476,14 @@ fn main() {
     for_each_case(|line| {
         let mut parts = line.split(';');
         let head: Vec<&str> = parts.next().unwrap().split_whitespace().collect();
+        if head.len() == 2 && head[0] == "SIZES" {
+            return match head[1] {
+                "8" => sizes::<u8>(),
+                "16" => sizes::<u16>(),
+                "32" => sizes::<u32>(),
+                _ => "BADCASE".to_string(),
+            };
+        }
         if head.len() != 4 && head.len() != 5 {
             return "BADCASE".to_string();
         }
